@@ -82,7 +82,7 @@ Example C06_ex_ok :
   let w := run prog_ok false [] [(O, O)] 12 in
   bad w = false /\ ths w = [] /\ tasks w = [] /\
   map (fun s => (s_ph s, s_resumes s, s_timedout s)) (wsts w) = [(Dead, 1%nat, false)] /\
-  In (LRes 1 0 0 [205; 209] false) (wlog w).
+  In (LRes 1 0 0 2 [205; 209] false) (wlog w).
 Proof. vm_compute. repeat split. tauto. Qed.
 
 Example C06_ex_tmo :
@@ -97,7 +97,7 @@ Example C06_ex_genraise :
   let w := run prog_genraise false [] [(O, O)] 12 in
   bad w = false /\ ths w = [] /\ tasks w = [] /\
   map (fun s => (s_ph s, s_resumes s)) (wsts w) = [(Dead, 1%nat)] /\
-  In (LRes 1 0 0 [209; -1] true) (wlog w).
+  In (LRes 1 0 0 2 [209; -1] true) (wlog w).
 Proof. vm_compute. repeat split. tauto. Qed.
 
 (* a handler that raises right after being resumed from its own call: its event still finishes, its caller is resumed *)
@@ -106,5 +106,5 @@ Example C06_ex_raise_resumed :
   bad w = false /\ ths w = [] /\ tasks w = [] /\
   map (fun e => e_waiting e) (evs w) = [0; 0; 0; 0] /\
   map (fun s => (s_ph s, s_resumes s)) (wsts w) = [(Dead, 1%nat); (Dead, 1%nat)] /\
-  In (LRes 1 0 0 [-1] true) (wlog w).
+  In (LRes 1 0 0 2 [-1] true) (wlog w).
 Proof. vm_compute. repeat split. tauto. Qed.
